@@ -75,7 +75,7 @@ func layout(toks []tok, style int) string {
 			case 6: // a comment, then a line that starts with blanks
 				sb.WriteString("# c\n \t ")
 			case 7: // several comments and empty lines in a row, blanks before each
-				sb.WriteString("\t#\n  # second ( [ {\n\n\t#third\r\n")
+				sb.WriteString("\t#\n  # second ( [ {\n\n\t#third\r\n#\n") // (the last comment is empty: the token follows on the next line)
 			default:
 				sb.WriteByte(' ')
 			}
